@@ -346,10 +346,14 @@ macro_rules! world {
                 r
             }
             fn bigint_mul_assign(x: &mut Self::V, y: &Self::V) {
-                let mut b = $krate::bigint::Bigint { data: x.clone() };
+                // (move the storage into the wrapper and back: a clone would shrink the heap capacity)
+                let mut b = $krate::bigint::Bigint { data: core::mem::replace(x, <Self::V>::v_new()) };
                 let rhs = $krate::bigint::Bigint { data: y.clone() };
-                b *= &rhs;
+                let r = std::panic::catch_unwind(std::panic::AssertUnwindSafe(|| b *= &rhs));
                 *x = b.data;
+                if let Err(e) = r {
+                    std::panic::resume_unwind(e);
+                }
             }
             fn bigint_hi64(x: &Self::V) -> (u64, bool) {
                 let b = $krate::bigint::Bigint { data: x.clone() };
